@@ -59,7 +59,7 @@ def body_catchfilter(backing, n, workers, backend, sel, with_key, x0, x1, x2, x3
     rs = rt.mk(n, [r0, r1, r2, r3])
     for r in rs:
         rt.assume(0 <= r)
-        rt.assume(r <= 3)
+        rt.assume(r <= 4)
     if sel == 'true':
         caught, c1, c2, foreign = True, FilterException, FSub, E2
     elif sel == 'type':
@@ -79,6 +79,8 @@ def body_catchfilter(backing, n, workers, backend, sel, with_key, x0, x1, x2, x3
             raise c2(x)
         if r == 3:
             raise foreign(x)
+        if r == 4:
+            return None          # an example whose value is None is an example like any other
         return x
     p = src.map(f).prefetch(workers, 2, backend=backend, catch_filter_exception=caught)
     exp, err = [], None
@@ -88,7 +90,8 @@ def body_catchfilter(backing, n, workers, backend, sel, with_key, x0, x1, x2, x3
         if r == 3:
             err = x
             break
-        exp.append((rt.KEYS[i], x) if with_key else x)
+        v = None if r == 4 else x
+        exp.append((rt.KEYS[i], v) if with_key else v)
     got = []
     try:
         if with_key:
